@@ -13,7 +13,8 @@ Conventions (see `TEXT_API.md` beside this file):
   list `_text` is abstracted to its concatenation).
 * Offsets are `Int` wherever Python lets a negative number through.
 * `Variant` carries one boolean per genuine defect of rich 9.10.0 found by the C05 check:
-  `true` = the code as released, `false` = the minimally repaired code (`pending_fixes/C05-*.diff`).
+  `true` = the code as released, `false` = the minimally repaired code, which /repo contains now (`fix:` commits
+  0149e10, ba4c9a6, 3a84457, b5c0e99, aad03fe, 9ca68f6; the former `pending_fixes/C05-*.diff`).
 -/
 namespace RichModel
 
@@ -482,9 +483,9 @@ def rstripEnd (v : Variant) (t : Text σ) (size : Int) : Text σ :=
     if ws != 0 then t.rightCrop v (min (ws : Int) excess) else t
   else t
 
-/-- `rstrip_end(size)` with the repair of `pending_fixes/C08-rstrip-end-counts-cells.diff` as a variant flag.
-`chars = true` is rich today: `text_length = len(self)` (characters) is compared with the *cell* width `size`;
-`chars = false` is the repaired code: `text_length = cell_len(self.plain)`.
+/-- `rstrip_end(size)` with the repair of fix f5f2be9 (the former `pending_fixes/C08-rstrip-end-counts-cells.diff`) as a variant flag.
+`chars = true` is rich 9.10.0 as found (before fix f5f2be9): `text_length = len(self)` (characters) is compared with the *cell* width `size`;
+`chars = false` is the repaired code, which /repo contains now: `text_length = cell_len(self.plain)`.
 (The flag is an explicit argument rather than a seventh field of `Variant`: `Variant`'s constructor and
 `rstripEnd`'s signature are used as they are by the word-wrap model; `rstripEndW true cw v = rstripEnd v`.) -/
 def rstripEndW (chars : Bool) (cw : Char → Nat) (v : Variant) (t : Text σ) (size : Int) : Text σ :=
